@@ -2,6 +2,9 @@
 """Regenerates MANIFEST.json from the table below (kept in one place so it stays valid)."""
 import json, subprocess
 CHECKS = {
+ "C03": dict(level="exploration", tech="decision-table oracle over a real node (driver + store + real Node validation) driven by the harness event loop, with a local JSON-RPC payment-vault stub (own OS thread) as the contract; store inspected after the simulator has drained all commands, events and disk tasks",
+             text="All 64 combinations of the six payment conditions (single-spot faults of otherwise valid proofs of 3/5 quotes) x four paid record kinds x prior content, plus random multi-fault proofs and unpaid uploads; stored-iff-all-hold, Err-iff-not-stored, held chunks unchanged, payment counter moves only on contract confirmation.",
+             note="The stub models the contract interface (three best-paid results), not pricing; closeness is falsified by a payee unknown to the node.", ref="DESIGN.md §4 C03"),
  "C20": dict(level="exploration", tech="differential monitor: install-time definition (real add_node, captured by the simulated OS) vs upgrade-time definition (real build_upgrade_install_context on the recorded data), both interpreted by the real antnode binary of the working tree through the guarded option-dump hook",
              text="Random combinations of all installable options; definitions compared field by field, both argument lists must be accepted by the real clap parser with identical parsed options, and every parsed field must equal the intended configuration.",
              note="antnode is rebuilt from /repo with --features verif-hooks on every run; combinations are sampled (not exhaustive); cmd::node::upgrade itself is out of reach offline.", ref="DESIGN.md §4 C20"),
